@@ -167,7 +167,12 @@ def check_matrix(ck, drv, n, modulo, M):
         if prod1 != eye or prod2 != eye or not g.is_inverse_to(inv) or not inv.is_inverse_to(g):
             ck.violation("C10/matrix/unsound-inverse", "inv returned a matrix that is not the inverse", {"case": case, "observed": Ir})
             return
-    if int_inverse and not ok and max(abs(v) for v in Mr) < 2**20 and max(abs(int(v)) for v in ex) < 2**40:
+    # completeness is claimed only where IEEE double inversion is accurate to well below 0.5 ("entries small enough
+    # for exact arithmetic"): n^2 * max|M| * max|M^-1|^2 < 2^40 (forward error of LU inversion ~ cond * eps * |M^-1|)
+    well_conditioned = int_inverse and n * n * max(1, max(abs(v) for v in Mr)) * max(1, max(abs(int(v)) for v in ex)) ** 2 < 2**40
+    if int_inverse and not well_conditioned:
+        ck.count("matrix:ill-conditioned (float inversion not claimed)")
+    if int_inverse and not ok and well_conditioned:
         ck.violation("C10/matrix/missed-inverse", "inv failed on an integer matrix whose inverse is an integer matrix", {"case": case, "exact_inverse": [int(v) for v in ex]})
         return
     # model: candidate = rounded float inverse (oracle), verification step modelled exactly
@@ -295,6 +300,11 @@ def main():
         if rng.random() < 0.4:
             ex = exact_inverse([v % modulo if modulo else v for v in mats[0]], n)
             mats.append([int(v) for v in ex])
+        if modulo > 0:
+            # every reduced representative must itself have an integer inverse (modular-only inverses are out of domain)
+            red = [exact_inverse([v % modulo for v in M], n) for M in mats]
+            if any(e is None or not all(v.denominator == 1 for v in e) for e in red):
+                continue
         check_matrix_def(ck, drv, n, modulo, mats, None)
     # singular / non-unimodular matrices must be rejected (soundness side)
     for _ in range(100):
